@@ -26,6 +26,9 @@ ENTROPY_EXT = {"getrandom", "getentropy", "arc4random", "arc4random_buf", "arc4r
                "<indirect>"}
 
 
+ALSO_PORTABLE = True
+
+
 def run(ctx, chk):
     prog = ctx.prog()
     cg = prog.callgraph()
@@ -154,6 +157,7 @@ def run(ctx, chk):
             gd = prog.global_def(f, g)
             if gd is None:
                 continue
-            if not gd[1]["const"] and not gd[1]["tls"]:
+            written = any(cg.gkey(gd[0], g) in cg.globals_written_at(w) for w in prog.functions())
+            if not gd[1]["const"] and not gd[1]["tls"] and written:
                 chk.ob("R6.2-g", f, "no load of mutable process-global state in the signing call graph", False,
                        loc=f.loc(iid), detail="loads mutable global %s" % g, key="R6.2-g %s load-%s" % (f.sname, g))
